@@ -253,6 +253,9 @@ PRODUCT_SHAPES_THOROUGH = PRODUCT_SHAPES_QUICK + ((1, 4), (4, 1))
 TXT_ORDER = ("letters", "mixed", "blanks", "corpus")
 
 
+WS_ONLY_LETTERS = "BF"   # the cells whose text paragraphs consist of Unicode white space only
+
+
 def kind_paragraphs(kind, L):
     """Paragraph list of one cell for a pattern over {b, t}; text paragraphs read L (one) or L1, L2 (two)."""
     nt = kind.count("t")
@@ -262,7 +265,12 @@ def kind_paragraphs(kind, L):
             out.append("")
         else:
             n += 1
-            out.append(L if nt == 1 else "%s%d" % (L, n))
+            if L in WS_ONLY_LETTERS:
+                # text that a whitespace-stripping test would call empty (no-break space; ideographic space + line
+                # separator): it is text, and moves with the rest of the cell's text on a merge
+                out.append("\u00a0" if n == 1 else "\u3000\u2028")
+            else:
+                out.append(L if nt == 1 else "%s%d" % (L, n))
     return out
 
 
